@@ -217,11 +217,13 @@ class StreamMixin:
                 raise Unsupported("fread destination %r" % (tgt,))
         self._logw(st, f.id, ("pos",))
         # cursor and return value
+        # C11 7.21.8.1: "If size or nmemb is zero, fread returns zero" (and reads nothing)
         if cn == 1:
             f.pos = simp(z3.If(fits, old + total, z3.If(f.size > old, f.size, old)))
-            return z3.If(fits, z3.IntVal(1), z3.IntVal(0))
+            return simp(z3.If(z3.And(fits, size > 0), z3.IntVal(1), z3.IntVal(0)))
         k = self.fresh("fread_items", z3.IntSort())
-        st.assume(z3.And(k >= 0, k <= nmemb, z3.Implies(fits, k == nmemb), z3.Implies(z3.Not(fits), k < nmemb)))
+        st.assume(z3.And(k >= 0, k <= nmemb, z3.Implies(z3.And(fits, size > 0), k == nmemb), z3.Implies(z3.Not(fits), k < nmemb),
+                         z3.Implies(size == 0, k == 0)))
         f.pos = simp(z3.If(fits, old + total, z3.If(f.size > old, f.size, old)))
         return k
 
@@ -332,6 +334,18 @@ class StreamMixin:
         return self.fresh("strcmp", z3.IntSort())
 
     bi_strncmp = bi_strcmp
+
+    def bi_strstr(self, st, args, n):
+        """strstr(haystack, needle): decided by the pack's ghost handler (returns the z3 Bool 'needle occurs in haystack');
+        the result is a pointer into the haystack that is NULL exactly when it does not occur"""
+        h = st.ghost.get("strstr")
+        if h is None:
+            raise Unsupported("strstr without a string model")
+        found = h(self, st, args)
+        a = ArrObj(None, None, "sym", "strstr%d" % next(self.fresh_n))
+        a.leaves, a.leaf_types = {}, {}
+        st.mem.add(a)
+        return Ptr(a.id, (z3.IntVal(0),), simp(z3.Not(found)))
 
     # ------------------------------------------------------------------ byte buffers with typed views
     def new_bytebuf(self, st, name, size=None):
